@@ -24,10 +24,11 @@ namespace {
 enum Kind { K_VECTOR = 0, K_LIST, K_TREE, K_HASH, K_LTBL, K_NKIND };
 const char *kname(int k) { static const char *n[] = {"qvector", "qlist", "qtreetbl", "qhashtbl", "qlisttbl"}; return n[k]; }
 struct Op { int code; std::string key, val; };
-struct Prog { int kind; std::vector<std::string> init; std::vector<std::vector<Op>> thr; bool unique = false; size_t limit = 0; };
+struct Prog { int kind; std::vector<std::string> init; std::vector<std::vector<Op>> thr; bool unique = false; size_t limit = 0; int wrap = 0; };   // wrap (K_LIST only): 0 qlist, 1 qqueue, 2 qstack - elements are int64 numbers there
 
+const char *kname(const Prog &p) { return p.kind == K_LIST && p.wrap == 1 ? "qqueue" : p.kind == K_LIST && p.wrap == 2 ? "qstack" : kname(p.kind); }
 const char *opname(int kind, int code) {
-    static const char *seq[] = {"addlast", "addfirst", "popfirst", "poplast", "getfirst(copy)", "clear", "toarray", "removefirst", "addat(1)", "getlast(copy)", "tostring", "unlocked copying walk", "getat(1,copy)", "popat(1)", "removeat(1)"};
+    static const char *seq[] = {"addlast", "addfirst", "popfirst", "poplast", "getfirst(copy)", "clear", "toarray", "removefirst", "addat(1)", "getlast(copy)", "tostring", "unlocked copying walk", "getat(1,copy)", "popat(1)", "removeat(1)", "popint", "getint"};
     static const char *map[] = {"put", "get(copy)", "remove", "clear", "lock+walk+unlock", "unlocked copying walk", "getint", "putint", "get(size,copy)"};
     return kind <= K_LIST ? seq[code] : map[code];
 }
@@ -36,11 +37,14 @@ std::string opstr(int kind, const Op &o) { std::string s = opname(kind, o.code);
 // ------------------------------------------------------------------ sequential model
 struct Model {
     int kind; bool unique = false; size_t limit = 0;      // limit: qlist setsize()
+    int wrap = 0;                                          // 2 = stack: push goes to the front
     std::vector<std::string> seq;                       // vector / list
     std::vector<std::pair<std::string, std::string>> kv; // listtbl order; tree/hash as set
     std::string apply(const Op &o) {
         if (kind <= K_LIST) {
-            switch (o.code) {
+            switch (o.code == 0 && wrap == 2 ? 1 : o.code) {
+                case 15: { if (seq.empty()) return "0"; std::string r = seq.front(); seq.erase(seq.begin()); return r; }
+                case 16: return seq.empty() ? "0" : seq.front();
                 case 0: if (limit && seq.size() >= limit) return "F"; seq.push_back(o.val); return "T";
                 case 1: if (limit && seq.size() >= limit) return "F"; seq.insert(seq.begin(), o.val); return "T";
                 case 2: { if (seq.empty()) return "NULL"; std::string r = seq.front(); seq.erase(seq.begin()); return r; }
@@ -218,7 +222,33 @@ std::string do_op(const Prog &p, void *c, const Op &o) {
                 default: r = qvector_getlast(v, true);
             }
             if (!r) return "NULL"; std::string s((char *)r, 4); free(r); return s; }
-        case K_LIST: { qlist_t *l = (qlist_t *)c; std::string e = pad4(o.val);
+        case K_LIST: if (p.wrap) {
+            // queue / stack: elements are int64 numbers (pushint), raw results are printed as numbers
+            auto num = [](void *r, size_t n) { if (!r) return std::string("NULL"); std::string s = n == sizeof(int64_t) ? std::to_string((long long)*(int64_t *)r) : "<" + std::to_string(n) + " bytes>"; free(r); return s; };
+            int64_t v = atoll(o.val.c_str());
+            if (p.wrap == 1) { qqueue_t *q = (qqueue_t *)c;
+                switch (o.code) {
+                    case 0: return qqueue_pushint(q, v) ? "T" : "F";
+                    case 2: r = qqueue_pop(q, &n); return num(r, n);
+                    case 4: r = qqueue_get(q, &n, true); return num(r, n);
+                    case 5: qqueue_clear(q); return "";
+                    case 12: r = qqueue_getat(q, 1, &n, true); return num(r, n);
+                    case 13: r = qqueue_popat(q, 1, &n); return num(r, n);
+                    case 15: return std::to_string((long long)qqueue_popint(q));
+                    default: return std::to_string((long long)qqueue_getint(q));
+                } }
+            qstack_t *q = (qstack_t *)c;
+            switch (o.code) {
+                case 0: return qstack_pushint(q, v) ? "T" : "F";
+                case 2: r = qstack_pop(q, &n); return num(r, n);
+                case 4: r = qstack_get(q, &n, true); return num(r, n);
+                case 5: qstack_clear(q); return "";
+                case 12: r = qstack_getat(q, 1, &n, true); return num(r, n);
+                case 13: r = qstack_popat(q, 1, &n); return num(r, n);
+                case 15: return std::to_string((long long)qstack_popint(q));
+                default: return std::to_string((long long)qstack_getint(q));
+            } }
+            { qlist_t *l = (qlist_t *)c; std::string e = pad4(o.val);
             switch (o.code) {
                 case 0: return qlist_addlast(l, e.data(), 4) ? "T" : "F";
                 case 1: return qlist_addfirst(l, e.data(), 4) ? "T" : "F";
@@ -277,7 +307,9 @@ std::string contents_of(const Prog &p, void *c) {
     std::string r;
     switch (p.kind) {
         case K_VECTOR: { qvector_t *v = (qvector_t *)c; size_t n = v->num > 64 ? 64 : v->num; if (v->num > v->max) return "<num " + std::to_string(v->num) + " exceeds capacity " + std::to_string(v->max) + ">"; for (size_t i = 0; i < n; i++) r += std::string((char *)v->data + i * 4, 4) + ";"; return r; }
-        case K_LIST: { qlist_t *l = (qlist_t *)c; size_t g = 0; for (qlist_obj_t *o = l->first; o && g++ < 64; o = o->next) r += std::string((char *)o->data, o->size) + ";"; if (g != l->num) r += "<num=" + std::to_string(l->num) + ">"; return r; }
+        case K_LIST: { qlist_t *l = p.wrap == 1 ? ((qqueue_t *)c)->list : p.wrap == 2 ? ((qstack_t *)c)->list : (qlist_t *)c; size_t g = 0;
+            if (p.wrap) { for (qlist_obj_t *o = l->first; o && g++ < 64; o = o->next) r += (o->size == sizeof(int64_t) ? std::to_string((long long)*(int64_t *)o->data) : "<" + std::to_string(o->size) + " bytes>") + ";"; if (g != l->num) r += "<num=" + std::to_string(l->num) + ">"; return r; }
+            for (qlist_obj_t *o = l->first; o && g++ < 64; o = o->next) r += std::string((char *)o->data, o->size) + ";"; if (g != l->num) r += "<num=" + std::to_string(l->num) + ">"; return r; }
         case K_TREE: { qtreetbl_t *t = (qtreetbl_t *)c; std::vector<std::string> v; qtreetbl_obj_t ob; memset(&ob, 0, sizeof ob); size_t g = 0; while (qtreetbl_getnext(t, &ob, false) && g++ < 100) v.push_back(std::string((char *)ob.name) + "=" + std::string((char *)ob.data)); std::sort(v.begin(), v.end()); for (auto &e : v) r += e + ";"; if (g != t->num) r += "<num=" + std::to_string(t->num) + ">"; return r; }
         case K_HASH: { qhashtbl_t *t = (qhashtbl_t *)c; std::vector<std::string> v; qhashtbl_obj_t ob; memset(&ob, 0, sizeof ob); size_t g = 0; while (qhashtbl_getnext(t, &ob, false) && g++ < 100) v.push_back(std::string(ob.name) + "=" + std::string((char *)ob.data)); std::sort(v.begin(), v.end()); for (auto &e : v) r += e + ";"; if (g != t->num) r += "<num=" + std::to_string(t->num) + ">"; return r; }
         default: { qlisttbl_t *t = (qlisttbl_t *)c; size_t g = 0; for (qlisttbl_obj_t *o = t->first; o && g++ < 100; o = o->next) r += std::string(o->name) + "=" + std::string((char *)o->data) + ";"; if (g != t->num) r += "<num=" + std::to_string(t->num) + ">"; return r; }
@@ -286,14 +318,17 @@ std::string contents_of(const Prog &p, void *c) {
 void *create(const Prog &p) {
     switch (p.kind) {
         case K_VECTOR: return qvector(2, 4, QVECTOR_THREADSAFE | QVECTOR_RESIZE_EXACT);
-        case K_LIST: { qlist_t *l = qlist(QLIST_THREADSAFE); if (l && p.limit) qlist_setsize(l, p.limit); return l; }
+        case K_LIST: {
+            if (p.wrap == 1) { qqueue_t *q = qqueue(QQUEUE_THREADSAFE); if (q && p.limit) qqueue_setsize(q, p.limit); return q; }
+            if (p.wrap == 2) { qstack_t *q = qstack(QSTACK_THREADSAFE); if (q && p.limit) qstack_setsize(q, p.limit); return q; }
+            qlist_t *l = qlist(QLIST_THREADSAFE); if (l && p.limit) qlist_setsize(l, p.limit); return l; }
         case K_TREE: return qtreetbl(QTREETBL_THREADSAFE);
         case K_HASH: return qhashtbl(3, QHASHTBL_THREADSAFE);
         default: return qlisttbl(QLISTTBL_THREADSAFE | (p.unique ? QLISTTBL_UNIQUE : 0));
     }
 }
 void destroy(const Prog &p, void *c) {
-    switch (p.kind) { case K_VECTOR: qvector_free((qvector_t *)c); break; case K_LIST: qlist_free((qlist_t *)c); break; case K_TREE: qtreetbl_free((qtreetbl_t *)c); break; case K_HASH: qhashtbl_free((qhashtbl_t *)c); break; default: qlisttbl_free((qlisttbl_t *)c); }
+    switch (p.kind) { case K_VECTOR: qvector_free((qvector_t *)c); break; case K_LIST: if (p.wrap == 1) qqueue_free((qqueue_t *)c); else if (p.wrap == 2) qstack_free((qstack_t *)c); else qlist_free((qlist_t *)c); break; case K_TREE: qtreetbl_free((qtreetbl_t *)c); break; case K_HASH: qhashtbl_free((qhashtbl_t *)c); break; default: qlisttbl_free((qlisttbl_t *)c); }
 }
 
 void *worker(void *arg) {
@@ -373,7 +408,7 @@ bool lin_search(const Prog &p, const std::vector<Obs> &h, std::vector<bool> &don
     return false;
 }
 std::string describe(const Prog &p, const Exec &ex) {
-    std::string s = std::string(kname(p.kind)) + (p.unique ? "(UNIQUE)" : "") + (p.limit ? "(max " + std::to_string(p.limit) + ")" : "") + " init[";
+    std::string s = std::string(kname(p)) + (p.unique ? "(UNIQUE)" : "") + (p.limit ? "(max " + std::to_string(p.limit) + ")" : "") + " init[";
     for (auto &e : p.init) s += e + " ";
     s += "]";
     std::vector<Obs> h = ex.hist; std::sort(h.begin(), h.end(), [](const Obs &a, const Obs &b) { return a.inv < b.inv; });
@@ -383,16 +418,17 @@ std::string describe(const Prog &p, const Exec &ex) {
     return s;
 }
 void verdict(Ctx &c, const Prog &p, const Exec &ex) {
-    if (S.leak) c.fail(LIN | LOCK, (std::string("conc:lock-leaked:") + kname(p.kind)).c_str(), "%s: %s", S.leak_at_exit ? "a thread finished its operations still holding the container lock (more acquisitions than releases)" : "all remaining threads wait for the container lock although no thread is inside an operation that could release it", describe(p, ex).c_str());
-    Model m; m.kind = p.kind; m.unique = p.unique; m.limit = p.limit;
-    for (size_t i = 0; i < p.init.size(); i++) { Op o; o.code = 0; o.key = "k" + std::to_string(i); o.val = p.kind <= K_LIST ? pad4(p.init[i]) : p.init[i]; m.apply(o); }
+    if (S.leak) c.fail(LIN | LOCK, (std::string("conc:lock-leaked:") + kname(p)).c_str(), "%s: %s", S.leak_at_exit ? "a thread finished its operations still holding the container lock (more acquisitions than releases)" : "all remaining threads wait for the container lock although no thread is inside an operation that could release it", describe(p, ex).c_str());
+    Model m; m.kind = p.kind; m.unique = p.unique; m.limit = p.limit; m.wrap = p.wrap;
+    bool padded = p.kind <= K_LIST && !p.wrap;
+    for (size_t i = 0; i < p.init.size(); i++) { Op o; o.code = 0; o.key = "k" + std::to_string(i); o.val = padded ? pad4(p.init[i]) : p.init[i]; m.apply(o); }
     std::vector<bool> done(ex.hist.size(), false);
     // the model works on padded element values for sequences
     Prog q = p;
-    if (p.kind <= K_LIST) for (auto &t : q.thr) for (auto &o : t) o.val = pad4(o.val);
+    if (padded) for (auto &t : q.thr) for (auto &o : t) o.val = pad4(o.val);
     if (!lin_search(q, ex.hist, done, m, 0, ex.final_contents, nullptr)) {
         std::string ops; for (auto &o : ex.hist) ops += opname(p.kind, p.thr[(size_t)o.thr][(size_t)o.idx].code), ops += "+";
-        c.fail(LIN, (std::string("conc:not-linearizable:") + kname(p.kind)).c_str(), "no one-at-a-time order of the calls explains the results and final contents: %s", describe(p, ex).c_str());
+        c.fail(LIN, (std::string("conc:not-linearizable:") + kname(p)).c_str(), "no one-at-a-time order of the calls explains the results and final contents: %s", describe(p, ex).c_str());
     }
 }
 
@@ -417,14 +453,16 @@ Prog gen_prog(Src &s) {
     p.unique = p.kind == K_LTBL && s.boolean();
     int ninit = (int)s.range(0, 3);
     if (p.kind == K_LIST && s.chance(1, 3)) { p.limit = (size_t)s.range(1, 3); if ((size_t)ninit > p.limit) ninit = (int)p.limit; }
-    for (int i = 0; i < ninit; i++) p.init.push_back("i" + std::to_string(i));
+    if (p.kind == K_LIST) p.wrap = (int)s.pick({3, 2, 2});
+    for (int i = 0; i < ninit; i++) p.init.push_back(p.wrap ? std::to_string(900 + i) : "i" + std::to_string(i));
     int nt = (int)s.pick({3, 1}) == 0 ? 2 : 3;
     int vc = 0;
     for (int t = 0; t < nt; t++) {
         std::vector<Op> ops; int n = (int)s.range(1, 3);
         for (int i = 0; i < n; i++) {
             Op o;
-            if (p.kind <= K_LIST) { o.code = (int)s.pick({5, 3, 4, 3, 2, 1, 3, 2, 2, 1, p.kind == K_LIST ? 2 : 0, 2, 2, 2, 1}); o.val = "v" + std::to_string(vc++); }
+            if (p.wrap) { static const int wc[] = {0, 2, 4, 5, 12, 13, 15, 16}; o.code = wc[s.pick({6, 3, 2, 1, 1, 2, 4, 2})]; o.val = std::to_string(100 + vc++); }
+            else if (p.kind <= K_LIST) { o.code = (int)s.pick({5, 3, 4, 3, 2, 1, 3, 2, 2, 1, p.kind == K_LIST ? 2 : 0, 2, 2, 2, 1}); o.val = "v" + std::to_string(vc++); }
             else { int ni = p.kind == K_TREE ? 0 : 2; o.code = (int)s.pick({5, 3, 3, 1, 2, ni, ni, ni, 2}); o.key = "k" + std::to_string(s.range(0, 2)); o.val = o.code == 7 ? std::to_string(10 + vc++) : "v" + std::to_string(vc++); }
             ops.push_back(o);
         }
@@ -468,13 +506,13 @@ void run_free(Src &s, Ctx &c) {
     for (size_t i = 0; i < p.thr.size(); i++) pthread_join(th[i], nullptr);
     pthread_barrier_destroy(&bar);
     for (void *cont : conts) destroy(p, cont);
-    std::string d = std::string(kname(p.kind)) + (priv ? " (one private container per thread)" : "") + " free-running x" + std::to_string(iters);
+    std::string d = std::string(kname(p)) + (priv ? " (one private container per thread)" : "") + " free-running x" + std::to_string(iters);
     for (size_t t = 0; t < p.thr.size(); t++) { d += " | T" + std::to_string(t) + ":"; for (auto &o : p.thr[t]) d += " " + opstr(p.kind, o); }
     c.op("%s", d.c_str());
     int n = g_tsan_reports.load() - before;
-    if (n > 0) c.fail(LIN, (std::string("conc:data-race:") + kname(p.kind)).c_str(), "ThreadSanitizer reported %d data race(s) while running: %s", n, d.c_str());
+    if (n > 0) c.fail(LIN, (std::string("conc:data-race:") + kname(p)).c_str(), "ThreadSanitizer reported %d data race(s) while running: %s", n, d.c_str());
     c.nontrivial = p.thr.size() >= 2;
-    c.tag((std::string("freerun_") + kname(p.kind)).c_str()); if (priv) c.tag("freerun_private_containers");
+    c.tag((std::string("freerun_") + kname(p)).c_str()); if (priv) c.tag("freerun_private_containers");
 }
 }  // namespace
 extern "C" void __tsan_on_report(void *) { g_tsan_reports++; }
@@ -502,7 +540,7 @@ void run_case(Src &s, Ctx &c) {
     c.check_san("concurrent program");
     verdict(c, p, ex);
     c.nontrivial = S.preempt_in_op > 0;
-    c.tag(kname(p.kind)); if (S.preempt_in_op) c.tag("schedule_with_preemption_inside_an_operation");
+    c.tag(kname(p)); if (S.preempt_in_op) c.tag("schedule_with_preemption_inside_an_operation");
     if (S.bursts_used) c.tag("schedule_with_lock_wait_timeout_burst"); if (p.limit) c.tag("qlist_with_size_limit");
     c.tag(p.thr.size() == 2 ? "threads_2" : "threads_3");
 }
@@ -514,19 +552,21 @@ bool vf_enumerate(Ctx &c, EnumStats &st) {
     if (const char *e = getenv("VF_ENUM_SHARD")) sscanf(e, "%d/%d", &shard, &nshards);
     int pbound = c.tier ? 3 : 2;
     uint64_t pidx = 0;
-    for (int kind = 0; kind < K_NKIND; kind++) {
+    for (int kw = 0; kw < K_NKIND + 2; kw++) {
+        int kind = kw < K_NKIND ? kw : K_LIST, wrap = kw < K_NKIND ? 0 : kw - K_NKIND + 1;     // the two extra rounds: qqueue, qstack
         std::vector<int> codes = kind <= K_LIST ? std::vector<int>{0, 2, 6, 8, 5, 11} : std::vector<int>{0, 1, 2, 4};
         if (kind == K_HASH || kind == K_LTBL) { codes.push_back(5); codes.push_back(6); }
         if (kind == K_LIST) codes.push_back(10);
+        if (wrap) codes = {0, 2, 15, 16, 5, 13};
         // programs: thread0 = [a] or [a,b], thread1 = [c]
         for (int ninit = 0; ninit <= (kind == K_LTBL ? 3 : 1); ninit++)
             for (int a : codes) for (int b : codes) for (int cc : codes) for (int two = 0; two <= 1; two++) {
                 if (!two && b != codes[0]) continue;
                 if ((int)(pidx++ % (uint64_t)nshards) != shard) continue;
-                Prog p; p.kind = kind; p.unique = kind == K_LTBL && ninit >= 2;
+                Prog p; p.kind = kind; p.wrap = wrap; p.unique = kind == K_LTBL && ninit >= 2;
                 if (kind == K_LIST && (pidx & 1)) p.limit = 2;
-                for (int i = 0; i < (ninit & 1) + (kind <= K_LIST ? 1 : 0); i++) p.init.push_back("i" + std::to_string(i));
-                auto mk = [&](int code, int n) { Op o; o.code = code; o.key = "k" + std::to_string(n % 2); o.val = "v" + std::to_string(n); return o; };
+                for (int i = 0; i < (ninit & 1) + (kind <= K_LIST ? 1 : 0); i++) p.init.push_back(wrap ? std::to_string(900 + i) : "i" + std::to_string(i));
+                auto mk = [&](int code, int n) { Op o; o.code = code; o.key = "k" + std::to_string(n % 2); o.val = wrap ? std::to_string(100 + n) : "v" + std::to_string(n); return o; };
                 std::vector<Op> t0{mk(a, 0)}; if (two) t0.push_back(mk(b, 1));
                 p.thr.push_back(t0); p.thr.push_back({mk(cc, 2)});
                 { bool has = false, des = false; for (auto &t : p.thr) for (auto &o : t) { if (o.code == (kind <= K_LIST ? 11 : 5)) has = true; if (destructive(kind, o.code)) des = true; }
